@@ -779,6 +779,11 @@ def eval_modifies(ex, st, contract, env, with_cond=False):
             elif isinstance(node, ast.Call) and isinstance(node.func, ast.Name) and node.func.id == "gshape":
                 base = ex.ev(tmp, node.args[0])
                 items.extend([(base.z, "g_h"), (base.z, "g_w"), (base.z, "g_val")])
+            elif isinstance(node, ast.Call) and isinstance(node.func, ast.Name) and node.func.id == "any_key" and isinstance(node.args[0], ast.Constant):
+                # any_key("k"): entry k of ANY dictionary/object may be set, changed or removed (frame: every other key is untouched)
+                items.append((None, "has_" + node.args[0].value))
+                for f in ex.field_arrays_of(node.args[0].value):
+                    items.append((None, f))
             elif isinstance(node, ast.Call) and isinstance(node.func, ast.Name) and node.func.id == "all_grids":
                 items.append((None, "g_val"))  # contents of 2-D arrays (never their shapes)
             else:
